@@ -1755,4 +1755,238 @@ theorem Aff.inv4_unique {A B : Aff} (h : A.inv = .ok B) (M : M4) (hM : M.mul A.h
       _ = B.hom := by rw [hM, M4.mul_one]
 
 
+/-! ## the staged model follows the order of operations found in the source (TC09f) -/
+
+
+section steps
+variable {α : Type} (src tgt : Geom) (tol : Rat) (mode : PadMode α)
+
+theorem runMatch_nil (s : MgState α) : runMatch src tgt tol mode [] s = .ok s := rfl
+
+theorem runMatch_cons (op : MgOp) (g : Bool → Bool → Bool → Bool) (rest : List (MgOp × (Bool → Bool → Bool → Bool)))
+    (s : MgState α) :
+    runMatch src tgt tol mode ((op, g) :: rest) s =
+      if g s.requiresPermute s.requiresPad s.requiresCrop then
+        bindE (mgStep src tgt tol mode s op) (runMatch src tgt tol mode rest)
+      else runMatch src tgt tol mode rest s := rfl
+
+theorem mgStep_head (s : MgState α) : mgStep src tgt tol mode s .head =
+    bindE (mgHead src.frameOfRef tgt.frameOfRef src.cs tgt.cs) (fun _ => .ok s) := rfl
+theorem mgStep_align (s : MgState α) : mgStep src tgt tol mode s .align =
+    bindE (matchAlign s.vol.geom tgt tol) (fun a => .ok ⟨s.vol, some a, s.plan⟩) := rfl
+theorem mgStep_permute (v : Vol α) (a : (Ax → Ax) × (Ax → Int)) (pl : Option (AxisPlan × AxisPlan × AxisPlan)) :
+    mgStep src tgt tol mode ⟨v, some a, pl⟩ .permute = bindE (permute v a.1) (fun w => .ok ⟨w, some a, pl⟩) := rfl
+theorem mgStep_plan (v : Vol α) (a : (Ax → Ax) × (Ax → Int)) (pl : Option (AxisPlan × AxisPlan × AxisPlan)) :
+    mgStep src tgt tol mode ⟨v, some a, pl⟩ .plan =
+      bindE (matchPlan v.geom tgt a.2 tol) (fun p => .ok ⟨v, some a, some p⟩) := rfl
+theorem mgStep_pad (v : Vol α) (al : Option ((Ax → Ax) × (Ax → Int))) (pl : AxisPlan × AxisPlan × AxisPlan) :
+    mgStep src tgt tol mode ⟨v, al, some pl⟩ .pad =
+      bindE (pad v (mk3 pl.1.before pl.2.1.before pl.2.2.before) (mk3 pl.1.after pl.2.1.after pl.2.2.after) mode)
+        (fun w => .ok ⟨w, al, some pl⟩) := rfl
+theorem mgStep_crop (v : Vol α) (al : Option ((Ax → Ax) × (Ax → Int))) (pl : AxisPlan × AxisPlan × AxisPlan) :
+    mgStep src tgt tol mode ⟨v, al, some pl⟩ .crop =
+      bindE (getitem v (mk3 pl.1.sl pl.2.1.sl pl.2.2.sl)) (fun w => .ok ⟨w, al, some pl⟩) := rfl
+theorem mgStep_final (s : MgState α) : mgStep src tgt tol mode s .finalCheck =
+    bindE (geometryEqual s.vol.geom tgt (some tol)) (fun eq => if eq then .ok s else .error .runtime) := rfl
+theorem runMatch_copy (rest : List (MgOp × (Bool → Bool → Bool → Bool))) (g : Bool → Bool → Bool → Bool) (st : MgState α) :
+    runMatch src tgt tol mode ((.copy, g) :: rest) st = runMatch src tgt tol mode rest st := by
+  rw [runMatch_cons]
+  split <;> rfl
+end steps
+
+theorem bindE_error {β γ : Type} (e : ErrKind) (f : β → Except ErrKind γ) : bindE (.error e) f = .error e := rfl
+theorem bindE_ok {β γ : Type} (b : β) (f : β → Except ErrKind γ) : bindE (.ok b) f = f b := rfl
+
+/-- the staged definition written with `bindE` -/
+theorem matchGeometry_eq_bind {α : Type} (src : Vol α) (tgt : Geom) (tol : Rat) (mode : PadMode α) :
+    matchGeometry src tgt tol mode =
+      bindE (mgHead src.geom.frameOfRef tgt.frameOfRef src.geom.cs tgt.cs) (fun _ =>
+      bindE (matchAlign src.geom tgt tol) (fun a =>
+      bindE (if requiresPermute a.1 then permute src a.1 else .ok src) (fun nv =>
+      bindE (matchPlan nv.geom tgt a.2 tol) (fun pl =>
+      bindE (matchApply nv pl mode) (fun r =>
+      bindE (geometryEqual r.geom tgt (some tol)) (fun eq => if eq then .ok r else .error .runtime)))))) := by
+  unfold matchGeometry
+  cases h1 : mgHead src.geom.frameOfRef tgt.frameOfRef src.geom.cs tgt.cs with
+  | error e => simp only [bindE_error]
+  | ok b =>
+    simp only [bindE_ok]
+    cases h2 : matchAlign src.geom tgt tol with
+    | error e => simp only [bindE_error]
+    | ok a =>
+      obtain ⟨p, steps⟩ := a
+      simp only [bindE_ok]
+      cases h3 : (if requiresPermute p then permute src p else .ok src) with
+      | error e => simp only [bindE_error]
+      | ok nv =>
+        simp only [bindE_ok]
+        cases h4 : matchPlan nv.geom tgt steps tol with
+        | error e => simp only [bindE_error]
+        | ok pl =>
+          simp only [bindE_ok]
+          cases h5 : matchApply nv pl mode with
+          | error e => simp only [bindE_error]
+          | ok r =>
+            simp only [bindE_ok]
+            cases h6 : geometryEqual r.geom tgt (some tol) with
+            | error e => simp only [bindE_error]
+            | ok b => cases b <;> simp [bindE_ok]
+
+theorem matchApply_eq_bind {α : Type} (nv : Vol α) (pl : AxisPlan × AxisPlan × AxisPlan) (mode : PadMode α) :
+    matchApply nv pl mode =
+      bindE (if pl.2.2.requiresPad then
+          pad nv (mk3 pl.1.before pl.2.1.before pl.2.2.before) (mk3 pl.1.after pl.2.1.after pl.2.2.after) mode
+        else .ok nv)
+        (fun nv1 => if pl.2.2.requiresCrop then getitem nv1 (mk3 pl.1.sl pl.2.1.sl pl.2.2.sl) else .ok nv1) := by
+  unfold matchApply
+  cases (if pl.2.2.requiresPad then
+          pad nv (mk3 pl.1.before pl.2.1.before pl.2.2.before) (mk3 pl.1.after pl.2.1.after pl.2.2.after) mode
+        else .ok nv) with
+  | error e => simp only [bindE_error]
+  | ok nv1 => simp only [bindE_ok]
+
+/-- the last four operations (copy, pad, crop, final comparison) from a state that has a plan -/
+theorem runMatch_tail {α : Type} (src tgt : Geom) (tol : Rat) (mode : PadMode α) (vol : Vol α)
+    (al : Option ((Ax → Ax) × (Ax → Int))) (pl : AxisPlan × AxisPlan × AxisPlan) :
+    bindE (runMatch src tgt tol mode
+        [(.copy, fun requires_permute requires_pad requires_crop => (!(requires_permute || requires_pad || requires_crop))),
+         (.pad, fun requires_permute requires_pad requires_crop => requires_pad),
+         (.crop, fun requires_permute requires_pad requires_crop => requires_crop),
+         (.finalCheck, fun requires_permute requires_pad requires_crop => true)] ⟨vol, al, some pl⟩) (fun s => .ok s.vol) =
+    bindE (matchApply vol pl mode) (fun r =>
+      bindE (geometryEqual r.geom tgt (some tol)) (fun eq => if eq then .ok r else .error .runtime)) := by
+  have hfinal : ∀ v : Vol α, bindE (runMatch src tgt tol mode
+        [(.finalCheck, fun requires_permute requires_pad requires_crop => true)] ⟨v, al, some pl⟩) (fun s => .ok s.vol) =
+      bindE (geometryEqual v.geom tgt (some tol)) (fun eq => if eq then .ok v else .error .runtime) := by
+    intro v
+    rw [runMatch_cons]
+    simp only [if_true]
+    rw [mgStep_final]
+    cases geometryEqual v.geom tgt (some tol) with
+    | error e => simp only [bindE_error]
+    | ok b => cases b <;> simp [bindE_ok, bindE_error, runMatch_nil]
+  obtain ⟨p0, p1, ⟨sl2, bf2, af2, rc, rp⟩⟩ := pl
+  rw [runMatch_copy, matchApply_eq_bind, runMatch_cons]
+  cases rp <;> cases rc
+  · simp only [MgState.requiresPad, Bool.false_eq_true, if_false, bindE_ok]
+    rw [runMatch_cons]
+    simp only [MgState.requiresCrop, Bool.false_eq_true, if_false]
+    rw [hfinal]
+  · simp only [MgState.requiresPad, Bool.false_eq_true, if_false, bindE_ok]
+    rw [runMatch_cons]
+    simp only [MgState.requiresCrop, if_true]
+    rw [mgStep_crop]
+    cases getitem vol (mk3 p0.sl p1.sl sl2) with
+    | error e => simp only [bindE_error]
+    | ok r => simp only [bindE_ok]; rw [hfinal]
+  · simp only [MgState.requiresPad, if_true]
+    rw [mgStep_pad]
+    cases pad vol (mk3 p0.before p1.before bf2) (mk3 p0.after p1.after af2) mode with
+    | error e => simp only [bindE_error]
+    | ok nv1 =>
+      simp only [bindE_ok]
+      rw [runMatch_cons]
+      simp only [MgState.requiresCrop, Bool.false_eq_true, if_false]
+      rw [hfinal, bindE_ok]
+  · simp only [MgState.requiresPad, if_true]
+    rw [mgStep_pad]
+    cases pad vol (mk3 p0.before p1.before bf2) (mk3 p0.after p1.after af2) mode with
+    | error e => simp only [bindE_error]
+    | ok nv1 =>
+      simp only [bindE_ok]
+      rw [runMatch_cons]
+      simp only [MgState.requiresCrop, if_true]
+      rw [mgStep_crop]
+      cases getitem nv1 (mk3 p0.sl p1.sl sl2) with
+      | error e => simp only [bindE_error]
+      | ok r => simp only [bindE_ok]; rw [hfinal]
+
+/-- **the hand model performs exactly the operations found in the source, in their order**: running
+the regenerated list `Gen.mgSteps` (operations and guards extracted from the AST of `match_geometry`)
+is the staged definition `matchGeometry` all theorems are about -/
+theorem match_follows {α : Type} (src : Vol α) (tgt : Geom) (tol : Rat) (mode : PadMode α) :
+    matchBySource src tgt tol mode = matchGeometry src tgt tol mode := by
+  rw [matchGeometry_eq_bind]
+  unfold matchBySource mgSteps
+  rw [runMatch_cons]
+  simp only [if_true]
+  rw [mgStep_head]
+  cases mgHead src.geom.frameOfRef tgt.frameOfRef src.geom.cs tgt.cs with
+  | error e => simp only [bindE_error]
+  | ok b =>
+    simp only [bindE_ok]
+    rw [runMatch_cons]
+    simp only [if_true]
+    rw [mgStep_align]
+    cases matchAlign src.geom tgt tol with
+    | error e => simp only [bindE_error]
+    | ok a =>
+      simp only [bindE_ok]
+      rw [runMatch_cons]
+      simp only [MgState.requiresPermute]
+      by_cases hrp : requiresPermute a.1 = true
+      · simp only [hrp, if_true]
+        rw [mgStep_permute]
+        cases permute src a.1 with
+        | error e => simp only [bindE_error]
+        | ok nv =>
+          simp only [bindE_ok]
+          rw [runMatch_cons]
+          simp only [if_true]
+          rw [mgStep_plan]
+          cases matchPlan nv.geom tgt a.2 tol with
+          | error e => simp only [bindE_error]
+          | ok pl =>
+            simp only [bindE_ok]
+            rw [runMatch_tail]
+      · have hrp' : requiresPermute a.1 = false := by simpa using hrp
+        simp only [hrp', Bool.false_eq_true, if_false, bindE_ok]
+        rw [runMatch_cons]
+        simp only [if_true]
+        rw [mgStep_plan]
+        cases matchPlan src.geom tgt a.2 tol with
+        | error e => simp only [bindE_error]
+        | ok pl =>
+          simp only [bindE_ok]
+          rw [runMatch_tail]
+
+theorem v2v_follows (fromA toA : Aff) (shape : Ax → Int) (roundOut check : Bool) (pts : List V3) :
+    v2vBySource fromA toA shape roundOut check pts = v2v fromA toA shape roundOut check pts := by
+  unfold v2vBySource v2v
+  simp only [v2vSteps, runIdx, idxStep]
+  cases hinv : toA.inv with
+  | error e => rfl
+  | ok inv =>
+    simp only []
+    have hmap : (if roundOut = true then List.map roundV (List.map (inv.comp fromA).apply pts)
+        else List.map (inv.comp fromA).apply pts) =
+        List.map (fun p => if roundOut = true then roundV ((inv.comp fromA).apply p) else (inv.comp fromA).apply p) pts := by
+      cases roundOut <;> simp [List.map_map]
+    rw [hmap]
+    cases check with
+    | false => rfl
+    | true =>
+      simp only [if_true]
+      cases boundsFail v2vBoundsAxis shape
+        (List.map (fun p => if roundOut = true then roundV ((inv.comp fromA).apply p) else (inv.comp fromA).apply p) pts) with
+      | error e => rfl
+      | ok b => cases b <;> rfl
+
+theorem refToIdx_follows (A : Aff) (shape : Ax → Int) (roundOut check : Bool) (pts : List V3) :
+    refToIdxBySource A shape roundOut check pts = refToIdx A shape roundOut check pts := by
+  unfold refToIdxBySource refToIdx
+  simp only [refIdxSteps, runIdx, idxStep]
+  cases hinv : A.inv with
+  | error e => rfl
+  | ok inv =>
+    simp only []
+    cases check with
+    | false => rfl
+    | true =>
+      simp only [if_true]
+      cases boundsFail refBoundsAxis shape (List.map inv.apply pts) with
+      | error e => rfl
+      | ok b => cases b <;> rfl
+
+
 end HdVerif.Match
